@@ -33,6 +33,11 @@ def pool(ctx):
           [1, [1]], [1, []], [1, [2, 1]], [1, [2]], ['a', ('a', 'b')], ['a', ('b',)], [1, {'k': 1}], [1, {}], [[1], 1], [[], 1], ('a', ['a']), ('a', []),
           {'k': 1, 'j': [1]}, {'k': 1, 'j': []}, [2, [1, [2]]], [2, [1, []]],
           # keys with underscores in every position (only a leading double underscore marks a private key)
+          # two keys of one dictionary with one digest (tuples that are permutations of each other): both entries count
+          {(1, 2): 'a', (2, 1): 'b'}, {(2, 1): 'b'}, {(1, 2): 'b'}, {(1, 2): 'b', (2, 1): 'a'}, {(1, 2): 'a'}, {(1, 1, 2): 'x', (1, 2): 'y'}, {(1, 2): 'y'}, {(1, 1, 2): 'y'},
+          [{(1, 2): 1, (2, 1): 2}], [{(2, 1): 2}], {'k': {('a', 'b'): [1], ('b', 'a'): [2]}}, {'k': {('b', 'a'): [2]}},
+          # sets of such tuples under the multiset mode (set members are unique as objects, not as digests)
+          {(1, 2), (2, 1)}, {(1, 2)}, frozenset({(1, 2), (2, 1), 3}), frozenset({(2, 1), 3}), [{(1, 2), (2, 1)}, 0], [{(2, 1)}, 0],
           # entries under falsy keys (0, '', None, False, 0.0, ()) count like any other
           {0: 'a'}, {0: 'b'}, {'': 1}, {'': 2}, {None: 1}, {None: 2}, {False: 'x'}, {False: 'y'}, {0.0: [1]}, {0.0: [2]}, {(): 1}, {(): 2}, {'id': 7, 0: 'zero'}, {'id': 7}, [{'id': 7, '': None}], [{'id': 7}],
           {'_id__gt': 1}, {'_id__gt': 2}, {'_user__name': 1}, {'_id': 1}, {'id__gt': 1}, {'_User__token': 'a'}, {'a_': 1}, {'_': 1}, [{'_id__gt': 1}], [{}]]
